@@ -397,6 +397,8 @@ fn judge(text: &str) -> (Outcome, Option<(String, String)>) {
                 "nonce-range"
             } else if why.contains("proof_of_work_bits") {
                 "pow-bits-range"
+            } else if why.contains("dynamic_params") {
+                "dynamic-params-by-position"
             } else if why.contains("not JSON") {
                 "not-json"
             } else {
